@@ -273,3 +273,49 @@ def cmap_reader_methods(ck):
     if read is None or parse is None:
         raise AnalysisError(f"{cr.where}: CmapReader's reading method / per-molecule parser not found")
     return read, parse
+
+
+class _Mismatch(Exception):
+    pass
+
+
+def push_select_inside(t: Term) -> Term:
+    """select(c, f(a1, x), f(a2, x))  ->  f(select(c, a1, a2), x): a conditional at the top of a term is moved down to the
+    smallest sub-terms that actually differ, so the common shape can be matched and the difference is named where it is"""
+    if t[0] != "select":
+        return t
+    c, a, b = t[1], push_select_inside(t[2]), push_select_inside(t[3])
+
+    TAGS = {"and", "andthen", "app", "attr", "await", "binop", "bv", "c", "call", "cls", "comp", "concat", "dict", "div", "elem",
+            "eq", "ext", "fmt", "fn", "fstr", "idx", "in", "is", "isnone", "isnot", "kwstar", "lam", "le", "list", "lt", "mcall",
+            "ne", "new", "not", "notin", "notnone", "or", "orelse", "poly", "pow", "rep", "select", "set", "slice", "star",
+            "tuple", "unk", "v", "yieldval", "mod", "floordiv"}
+
+    def is_term(x):
+        return isinstance(x, tuple) and len(x) > 0 and isinstance(x[0], str) and x[0] in TAGS
+
+    def au(x, y):
+        if x == y:
+            return x
+        if is_term(x) and is_term(y) and (x[0] != y[0] or len(x) != len(y) or x[0] in ("c", "v", "bv", "select")):
+            return ("select", c, x, y)
+        if isinstance(x, tuple) and isinstance(y, tuple) and len(x) == len(y):
+            if is_term(x) and is_term(y):
+                try:
+                    return tuple(au_raw(p, q) for p, q in zip(x, y))
+                except _Mismatch:
+                    return ("select", c, x, y)
+            if not is_term(x) and not is_term(y):
+                return tuple(au_raw(p, q) for p, q in zip(x, y))
+        raise _Mismatch()
+
+    def au_raw(x, y):
+        if x == y:
+            return x
+        if isinstance(x, tuple) and isinstance(y, tuple):
+            return au(x, y)
+        raise _Mismatch()
+    try:
+        return au(a, b)
+    except _Mismatch:
+        return ("select", c, a, b)
